@@ -141,6 +141,7 @@ type Gen struct {
 	usedGInv  bool
 	defers    []*ssa.Defer
 	nq        int
+	nqid      int
 	touched   map[string]bool
 }
 
